@@ -441,7 +441,7 @@ func c04Run(c *Ctx) {
 
 func init() {
 	addCheck(&Check{Flows: []flowOracle{flowPinned}, ID: "C04", Level: "model_checking",
-		Rule:   "explicit-state BFS by replay over histories (depth 6, thorough 8) of two INVITE dialogs plus one backend-issued SUBSCRIBE dialog over three backends: events {unrelated OPTIONS, initial INVITE d, 180(with Expires)/200/486 with to-tag from the chosen backend's configured address, in-dialog ACK/BYE/INFO/UPDATE/re-INVITE/NOTIFY/refresh SUBSCRIBE/PRACK in both directions (From/To swapped) and OPTIONS/MESSAGE/REFER/PUBLISH/an extension method in one direction per dialog, SUBSCRIBE issued by a backend, its 200 from the peer, NOTIFY / refresh SUBSCRIBE of that dialog}; five identifier flavours (plain, tags with '-' and equal From/To URIs with decorations, tel:/urn: parties with the INVITE numbered CSeq 0, From/To URIs that differ only in letter case, TCP backends); plus a timed BFS (depth 8, thorough 10) over {clock step 700 s, unrelated OPTIONS, INVITE/200 and in-dialog requests of two dialogs} with dialogTimeout 1200 s (a process older than the timeout: every purge instant falls inside some dialog's lifetime; a dialog is a don't-care once its lifetime has elapsed); plus a volume run (one dialog, 12000 - thorough 60000 - unrelated requests, then in-dialog requests); state = reference pins + per-dialog progress + dialog table (dialog entries) + rotation cursor; non-trivial = history longer than two events",
+		Rule:   "explicit-state BFS by replay over histories (depth 6, thorough 8) of two INVITE dialogs plus one backend-issued SUBSCRIBE dialog over three backends: events {unrelated OPTIONS, initial INVITE d, 180(with Expires)/200/486 with to-tag from the chosen backend's configured address, in-dialog ACK/BYE/INFO/UPDATE/re-INVITE/NOTIFY/refresh SUBSCRIBE/PRACK in both directions (From/To swapped) and OPTIONS/MESSAGE/REFER/PUBLISH/an extension method in one direction per dialog, SUBSCRIBE issued by a backend, its 200 from the peer, NOTIFY / refresh SUBSCRIBE of that dialog, the first NOTIFY overtaking that 200}; five identifier flavours (plain, tags with '-' and equal From/To URIs with decorations, tel:/urn: parties with the INVITE numbered CSeq 0, From/To URIs that differ only in letter case, TCP backends); plus a timed BFS (depth 8, thorough 10) over {clock step 700 s, unrelated OPTIONS, INVITE/200 and in-dialog requests of two dialogs} with dialogTimeout 1200 s (a process older than the timeout: every purge instant falls inside some dialog's lifetime; a dialog is a don't-care once its lifetime has elapsed); plus a volume run (one dialog, 12000 - thorough 60000 - unrelated requests, then in-dialog requests); state = reference pins + per-dialog progress + dialog table (dialog entries) + rotation cursor; non-trivial = history longer than two events",
 		Assume: []string{"no clock steps and no BYE answers / terminated NOTIFYs (C15 owns lifetime and early termination)", "client-transaction entries of the pin table are left out of the state key: they are consulted only for responses from unknown source addresses, which this alphabet does not produce"},
 		Run:    c04Run, Collapse: false,
 		Finalize: func(c *Ctx, m *Result) {
